@@ -37,6 +37,13 @@ impl IndexMapSV {
     { unimplemented!() }
 
     #[verifier::external_body]
+    pub fn get(&self, k: &String) -> (r: Option<&PathAwareValue>)
+        ensures
+            r is Some == has_key(self@, k@),
+            r is Some ==> exists|i: int| 0 <= i < self@.len() && self@[i].0 == k@ && self@[i].1 == *r->Some_0,
+    { unimplemented!() }
+
+    #[verifier::external_body]
     pub fn insert(&mut self, k: String, v: PathAwareValue) -> (r: Option<PathAwareValue>)
         ensures
             !has_key(old(self)@, k@) ==> final(self)@ == old(self)@.push((k@, v)) && r is None,
